@@ -263,7 +263,23 @@ def check_scale_invariance(h: Harness):
     h.count("scale-invariance-histories")
 
 
-def run_multi(aggs, variant, batching, repeats=None, pre=False):
+def shaped(problem, shape):
+    """the fitness function hands its components over as a list, a tuple, a numpy array or a one-shot generator (`(score(p, case) for
+    case in cases)`): the library reads them once, and what it records and aggregates are those values"""
+    if shape == "list":
+        return problem
+    f = problem.ff["ff"]
+    if shape == "tuple":
+        problem.ff["ff"] = lambda ph: tuple(f(ph))
+    elif shape == "array":
+        import numpy as np
+        problem.ff["ff"] = lambda ph: np.array(f(ph), dtype=float)
+    else:
+        problem.ff["ff"] = lambda ph: (x for x in f(ph))
+    return problem
+
+
+def run_multi(aggs, variant, batching, repeats=None, pre=False, shape="list"):
     """Two objectives (first maximised, second minimised): components (a + d, d) have default aggregate a."""
     rec = Recording()
     if variant == "default":
@@ -282,6 +298,7 @@ def run_multi(aggs, variant, batching, repeats=None, pre=False):
         problem = MultiObjectiveProblem(False, lambda ph: [ph[1]])
     else:
         problem = MultiObjectiveProblem([False, False], lambda ph: [ph[1], 7 - ph[0]], aggregate_fitness=lambda comps: comps[0])
+    problem = shaped(problem, shape)
     tracker = MultiObjectiveProgressTracker(problem, SequentialEvaluator(), recorders=[rec])
     inds = [mk_ind(i, v) for i, v in enumerate(aggs)]
     if pre:
@@ -332,8 +349,16 @@ def check_multi_histories(h: Harness):
             batching = ("one-by-one", "batch", "generator")[(k // 7) % 3]
             k += 1
             pre = k % 4 == 1
-            rec, _ = run_multi(aggs, variant, batching, pre=pre)
-            judge_multi(h, site, rec, f"aggregate history {list(aggs)} ({variant} aggregate, {batching}" + (", individuals scored on another problem before)" if pre else ")"), variant)
+            shape = ("list", "generator", "list", "tuple", "array")[(k // 3) % 5]
+            try:
+                rec, _ = run_multi(aggs, variant, batching, pre=pre, shape=shape)
+            except Exception as e:  # noqa: BLE001
+                h.fail(site, "raises", f"aggregate history {list(aggs)} ({variant} aggregate, {batching}, fitness function returns a {shape}): "
+                       f"{type(e).__name__}: {e}", {"aggs": list(aggs), "variant": variant, "shape": shape})
+                continue
+            h.count(f"multi:components-as-{shape}")
+            judge_multi(h, site, rec, f"aggregate history {list(aggs)} ({variant} aggregate, {batching}, fitness function returns a {shape}"
+                        + (", individuals scored on another problem before)" if pre else ")"), variant)
         h.count(f"multi:len{n}", 3 ** n)
     rng = h.rng
     for _ in range(h.n(150, 1500)):
@@ -503,7 +528,9 @@ def check_one_tracker_several_searches(h: Harness):
                     tracker.evaluate([Individual(rep.create_genotype(random), rep) for _ in range(m)])
                     phases.append(f"tracker.evaluate({m} new individuals)")
                     continue
-                budget = EvaluationBudget(total + rng.randint(1, 9))
+                # (sometimes the budget is ALREADY spent when the search starts -- the same object searched twice, a search after a
+                # warm start that used everything up: the search does little or nothing, and still returns the best individual known)
+                budget = EvaluationBudget(total + (0 if (total > 0 and rng.random() < 0.25) else rng.randint(1, 9)))
                 if algo == "again":
                     same.budget = budget
                     alg = same
